@@ -64,19 +64,47 @@ INSTANCES = [
     ('with-i2-i3', 'isotherm_delete_db(i2.iso_id)'),
     ('with-i2-i3', 'isotherm_delete_db(i3 object)'),
     ('with-i2-i3', 'isotherm_delete_db(retrieved[0])'),
+    ('empty', 'isotherm_to_db(ibig'),
 ]
 QUICK_MODES = ['registered']   # the retry happens in the same session: registries as the failed call left them
 
 
+BIG_N = 120000
+
+
+def _big():
+    """A point isotherm whose upload exceeds SQLite's page cache (the statement count is that of a small one: columns are
+    stored as one JSON text each), so that uncommitted pages reach the file before the commit."""
+    import numpy
+    import pygaps
+    p = numpy.linspace(1e-3, 10.0, BIG_N)
+    return pygaps.PointIsotherm(pressure=p, loading=numpy.sqrt(p) * 2.0 + 1e-7 * numpy.arange(BIG_N), material='matBig', adsorbate='gasA',
+                                temperature=298.5, operator='big', **rs.UNITS)
+
+
+def _extra_ops():
+    from pygaps.parsing import sqlite as q
+    return [(f'isotherm_to_db(ibig [{BIG_N} points], autoinsert_material=True, autoinsert_adsorbate=True)',
+             lambda u, p: q.isotherm_to_db(_big(), db_path=p, autoinsert_material=True, autoinsert_adsorbate=True, verbose=False),
+             lambda s, u: (lambda b: s.isotherm_to(b.iso_id, rs.iso_record(b), rs.mat_rows(b.material), rs.ads_rows(b.adsorbate), True, True))(_big()))]
+
+
 def find_op(prefix):
-    m = [o for o in c08.ops() if o[0].startswith(prefix)]
+    m = [o for o in c08.ops() + _extra_ops() if o[0].startswith(prefix)]
     if len(m) != 1:
         raise core.HarnessError(f'operation prefix {prefix!r} matches {len(m)} operations')
     return m[0]
 
 
 def prepare(prep, path):
-    """Build the prepared database and its model."""
+    """Build the prepared database and its model (in a forked copy of the process: see engine_faults.in_fork)."""
+    try:
+        return ef.in_fork(lambda: _prepare(prep, path))
+    except RuntimeError as e:
+        raise core.HarnessError(str(e))
+
+
+def _prepare(prep, path):
     tpl = os.path.join(core.scratch(), 'c09-template.db')
     if not os.path.exists(tpl):
         rs.create_template(tpl)
@@ -132,20 +160,24 @@ def work_instance(arg):
     exp = mfn(after, u)
     if exp != 'ok':
         raise core.HarnessError(f'instance {label} on {prep} is not an accepted operation ({exp})')
-    plan = ef.Plan()
-    with ef.injected(plan):
-        o = core.call(fn, u, work)
-    if not o.ok:
-        raise core.HarnessError(f'dry run of {label} on {prep} failed: {o.brief()}')
+    def dry():
+        plan = ef.Plan()
+        with ef.injected(plan):
+            o = core.call(fn, u, work)
+        return o.ok, o.brief(), plan.n, plan.log
+
+    ok, brief, n_points, log = ef.in_fork(dry)
+    if not ok:
+        raise core.HarnessError(f'dry run of {label} on {prep} failed: {brief}')
     d = after.diff(rs.read_raw(work))
     if d:
         # the fault-free operation itself is wrong: C08's business, but C09 cannot judge atomicity without a model
         out['viol'].append(core.make_violation({'check': 'fault-free-run-differs-from-model', 'op': label.split('(')[0]},
                                                f'{label} on {prep}: {d}', {'op': label}))
         return out
-    n = plan.n
+    n = n_points
     out['points'] = n
-    out['log'] = plan.log
+    out['log'] = log
 
     def classify(path):
         raw = rs.read_raw(path)
@@ -230,16 +262,41 @@ def work_instance(arg):
                 return
             retry_and_check((fault[0] + '+' + action2, exc2, k2), st2)
 
+    def isolated(fault, second=None):
+        """One execution (+ its retry) in a forked copy of this process: no state flows between executions."""
+        def task():
+            nv, ev0, nt0, k0, s0 = len(out['viol']), out['ev'], out['nt'], collections.Counter(out['kinds']), set(seen)
+            one(fault, second)
+            return out['viol'][nv:], out['ev'] - ev0, out['nt'] - nt0, out['kinds'] - k0, seen - s0
+        try:
+            viol, dev, dnt, dk, ds = ef.in_fork(task)
+        except RuntimeError as e:
+            raise core.HarnessError(f'{label} on {prep}, fault {fault}: {e}')
+        for v in viol:
+            k = core.sig_key(v['sig']) if 'sig' in v else None
+            out['viol'].append(v)
+        out['ev'] += dev
+        out['nt'] += dnt
+        out['kinds'].update(dk)
+        seen.update(ds)
+
+    if prefix.startswith('isotherm_to_db(ibig'):
+        faults = [f for f in faults if f[0].startswith('exit')]     # size only matters for process death
+        bound2 = False
+    one_ = isolated
+    big = prefix.startswith('isotherm_to_db(ibig')
     for k in range(1, n + 1):
         for action, exc in faults:
-            one((action, exc, k))
+            if big and action == 'exit-after' and k < n:
+                continue        # death after point k == death before point k+1
+            one_((action, exc, k))
     if bound2:
         # bound 2: a second fault in the retry, after a first fault at the first / middle / last statement point
         firsts = sorted({2, max(2, n // 2), max(2, n - 2)})
         for k1 in firsts:
             for k2 in range(1, n + 1):
                 for action2, exc2 in [('raise-instead', 'IntegrityError'), ('raise-instead', 'OperationalError')]:
-                    one(('raise-instead', 'OperationalError', k1), (action2, exc2, k2))
+                    one_(('raise-instead', 'OperationalError', k1), (action2, exc2, k2))
     return out
 
 
@@ -271,7 +328,11 @@ def strace_crash(ctx, instances):
     driver = os.path.join(core.VERIF, 'mc', 'c09_driver.py')
     jobs = []
     for prep, prefix in instances:
-        jobs.append((prep, prefix))
+        if prefix.startswith('isotherm_to_db(ibig'):
+            # thousands of page writes: the complete enumeration is split over 16 shards (syscall index mod 16)
+            jobs += [(prep, prefix, (i, 16)) for i in range(16)]
+        else:
+            jobs.append((prep, prefix, (0, 1)))
     res = core.pmap(_strace_instance, jobs, chunk=1)
     for r in res:
         ctx.add('syscall_kill', r['ev'], r['nt'], syscalls=r['syscalls'])
@@ -281,7 +342,7 @@ def strace_crash(ctx, instances):
 def _strace_instance(arg):
     import subprocess
     import sys
-    prep, prefix = arg
+    prep, prefix, (shard, nshards) = arg
     label, fn, mfn = find_op(prefix)
     sdir = core.scratch()
     prepared = os.path.join(sdir, 'sprepared.db')
@@ -312,9 +373,11 @@ def _strace_instance(arg):
         for sc in pre:
             if body.startswith(sc + '('):
                 counts[sc] += 1
-    out['syscalls'] = sum(counts.values())
+    out['syscalls'] = sum(counts.values()) if shard == 0 else 0
     for sc, cnt in counts.items():
         for j in range(1, cnt + 1):
+            if j % nshards != shard:
+                continue
             when = pre[sc] + j
             fresh_copy(prepared, work)
             cmd = ['strace', '-f', '-o', '/dev/null', '-e', f'trace={sc}', '-e', f'inject={sc}:signal=KILL:when={when}',
